@@ -16,8 +16,9 @@ def known_findings():
                 out.append({'property': m.group(1), 'key': m.group(2), 'text': m.group(3)})
     return out
 
-def proof_status(pid, tier='quick'):
+def proof_status(pid, tier='quick', root=None):
     """build the property's theorem modules, audit axioms of every theorem in them, grep for forbidden constructs"""
+    TFV = root or pipeline.TFV      # root = a re-proof project (regenerated Gen.lean) or the committed project
     reg = registry.REG.get(pid, {})
     mods = reg.get('module')
     if isinstance(mods, str):
@@ -32,15 +33,15 @@ def proof_status(pid, tier='quick'):
             res['ok'] = False
             res['errors'].append('theorem module %s is missing' % mod)
             return res
-    with pipeline.Lock(os.path.join(pipeline.BUILD, 'lake.lock')):
-        rc, out = pipeline.sh(['lake', 'build'] + mods, cwd=TFV, timeout=3600)
+    with pipeline.Lock(os.path.join(pipeline.BUILD, 'lake.lock') if root is None else os.path.join(root, 'lake.lock')):
+        rc, out = pipeline.sh(['lake', 'build'] + mods, cwd=TFV, timeout=3600 if root is None else 7200)
         if rc != 0:
             res['ok'] = False
             res['errors'].append('lake build %s failed: %s' % (' '.join(mods), out[-1500:]))
             return res
         outs = ''
         for k, mod in enumerate(mods):
-            audit = os.path.join(pipeline.BUILD, 'Audit_%s_%d.lean' % (pid, k))
+            audit = os.path.join(pipeline.BUILD if root is None else root, 'Audit_%s_%d.lean' % (pid, k))
             with open(audit, 'w') as f:
                 f.write(AUDIT_TEMPLATE.replace('MODULE', mod))
             rc, out = pipeline.sh(['lake', 'env', 'lean', audit], cwd=TFV, timeout=1200)
@@ -241,10 +242,34 @@ def main(argv):
             fails += f2
             if len(fu) > 2 and fu[2]:
                 prev_c, prev_a = c2, a2
+    nostd_out_of_domain = 0
     if spec.get('nostd'):
         impl_n = run_cases(st, cases.lines, 'harness_nostd')
         impl_gn = run_cases(st, gen_lines, 'harness_nostd')
+        ent_args = {e['name']: e['args'] for e in ents}
+        def unconstructible(ln):
+            """an operand that no safe public constructor or operation can produce: an overlapping pair with a finite high word
+            (C01: results are valid or have a non-finite high word).  Differences there stem from what the optimiser does to
+            `llvm.fma` (DESIGN §12), they are counted but not reported."""
+            w = ln.split()
+            kinds = ent_args.get(w[0])
+            if not kinds:
+                return False
+            k = 1
+            for kd in kinds:
+                if kd == 'tf':
+                    h, l = fp.unhx(w[k]), fp.unhx(w[k + 1]); k += 2
+                    if fp.isfin(h) and not fp.is_valid(h, l):
+                        return True
+                elif kd in ('pair', 'arr2'):
+                    k += 2
+                else:
+                    k += 1
+            return False
         for (i, ln, x, y) in corr.diff(cases.lines, impl, impl_n) + corr.diff(gen_lines, impl_g, impl_gn):
+            if unconstructible(ln):
+                nostd_out_of_domain += 1
+                continue
             fails.append({'idx': -1, 'clause': 'std_vs_nostd', 'detail': 'std %s, no_std %s' % (x, y), 'line': ln, 'impl': x})
     for f in fails:
         if 'line' not in f:
@@ -264,6 +289,27 @@ def main(argv):
 
     # ---- proof obligations
     ps = proof_status(pid, tier)
+    # second chance for bridges that rfl/simp could not close: re-check the property's theorems against the REGENERATED
+    # model.  Only definitions all of whose root entry points are proved at full strength (registry full_roots) can be
+    # discharged this way; a change under a search-only clause stays a broken obligation.
+    reproved = []
+    full_rx = registry.REG.get(pid, {}).get('full_roots', [])
+    if broken and full_rx and st.get('driver') and ps['ok'] and not os.environ.get('VERIF_NO_REPROVE'):
+        def covered(b):
+            rs = [r for r in roots if b in pipeline.closure(gen_defs, [r])] + [r for r in model_roots if b in pipeline.closure(model_defs, [r])]
+            return bool(rs) and all(any(re.search(rx, r) for rx in full_rx) for r in rs)
+        cand = [b for b in broken if covered(b)]
+        if cand:
+            log('re-proving %s against the regenerated model (bridge open for %s)' % (pid, ', '.join(cand[:6])))
+            proj = pipeline.reprove_project(st)
+            ps2 = proof_status(pid, tier, root=proj)
+            if ps2['ok']:
+                reproved = cand
+                ps = dict(ps2, reproved_against_regenerated_model=cand)
+                broken = [b for b in broken if b not in cand]
+            else:
+                ps['reprove_errors'] = ps2['errors']
+                print('re-proof against the regenerated model failed: ' + '; '.join(ps2['errors'])[:1500])
     obligations, discharged = 0, 0
     ob_list = []
     for t in ps['theorems']:
@@ -327,12 +373,12 @@ def main(argv):
             'trusted_base': registry.TRUSTED_BASE,
             'theorems': ps['theorems'], 'proof_errors': ps['errors'], 'leanchecker': ps.get('leanchecker'),
             'clauses': registry.REG.get(pid, {}).get('clauses', {}),
-            'footprint_definitions': len(foot), 'bridged': bridged, 'broken': broken,
+            'footprint_definitions': len(foot), 'bridged': bridged, 'broken': broken, 'reproved': reproved, 'reprove_errors': ps.get('reprove_errors'),
             'model_vs_source': 'identical' if not (st['changed'] or st['added'] or st['removed']) else 'changed: %s added: %s removed: %s' % (st['changed'][:10], st['added'][:10], st['removed'][:10]),
             'correspondence': {'cases': len(cases.lines) + len(gen_lines), 'differences': len(cdiff), 'entry_points': len(root_ents)},
             'evaluations': len(cases.lines) + len(gen_lines) + extra_eval, 'distinct_nontrivial': min(distinct, nontriv + len(set(gen_lines))),
             'rule': 'cases from the property generator (seeded SplitMix64, strata listed in DESIGN §5) plus generic cases per entry point; distinct = distinct case lines; non-trivial = the implementation produced an answer',
-            'oracle_failures': len(fails), 'known_findings_hit': sorted(known_hit), 'corpus_cases': n_corpus,
+            'oracle_failures': len(fails), 'std_vs_nostd_differences_on_unconstructible_operands': nostd_out_of_domain, 'known_findings_hit': sorted(known_hit), 'corpus_cases': n_corpus,
             'clause_histogram': hist(cases),
             'samples': [{'case': cases.lines[i], 'impl': impl[i], 'model': model[i]} for i in sample_idx(len(cases.lines))],
         },
